@@ -28,10 +28,7 @@ type nodeWalk struct {
 func (s *Sched) nodeWalk(fn *ssa.Function) nodeWalk {
 	e := s.e
 	w := nodeWalk{Passed: ir.EnumSet{}}
-	isElemStatus := func(v ssa.Value) bool {
-		p, ok := e.C.PathOf(v)
-		return ok && p.Suffix("State.Status")
-	}
+	isElemStatus := func(v ssa.Value) bool { return e.isStatusValue(v) }
 	isAll := func(v ssa.Value) bool {
 		if p, okp := e.C.PathOf(v); okp {
 			for _, an := range e.graphRoles().AllNodes {
